@@ -57,6 +57,22 @@ static bool mapArena(const std::vector<uintptr_t> &addrs)
     return true;
 }
 
+// the cache key, whatever type the current tree gives it (pair of words, single word, ...)
+template <class A, class B>
+static std::string keyStr(const std::pair<A, B> &k)
+{
+    char b[64];
+    snprintf(b, sizeof b, "%llx %llx", (unsigned long long)k.first, (unsigned long long)k.second);
+    return b;
+}
+template <class T>
+static std::string keyStr(const T &k)
+{
+    char b[64];
+    snprintf(b, sizeof b, "word %llx", (unsigned long long)k);
+    return b;
+}
+
 // ---- parsing -----------------------------------------------------------------------------------
 static bool parsePairs(const std::string &s, std::vector<std::pair<size_t, size_t>> &out)
 {
@@ -124,7 +140,7 @@ int main()
         auto t = hx::tokens(line);
         if (t.size() == 3 && t[0] == "K") {
             auto k = AnalyserModel::AnalyserModelImpl::equivalenceCacheKey(uintptr_t(strtoull(t[1].c_str(), nullptr, 16)), uintptr_t(strtoull(t[2].c_str(), nullptr, 16)));
-            printf("K %llx %llx\n", (unsigned long long)k.first, (unsigned long long)k.second);
+            printf("K %s\n", keyStr(k).c_str());
         } else if (t.size() >= 2 && t[0] == "G") {
             size_t n = size_t(atol(t[1].c_str()));
             std::string es = field(t, "E:"), qs = field(t, "Q:");
